@@ -150,6 +150,13 @@ def judge(t):
             V('C07.7-not-dropped', 'code was generated for %s but its status is %s' % (m, s), what='generated-status', status=s, module=m)
         elif s == 'failed' and not isinstance(getattr(R[m], 'error', None), error.PySmiWriterError):
             V('C07.7-not-dropped', 'code was generated for %s, yet it is reported failed with a non-writer error' % m, what='generated-failed', module=m)
+    # one bad MIB does not take a healthy one down: by the scenario alone these modules can be generated
+    mb = cs.must_build(scn)
+    if mb and not t.world.fired:
+        for c in t.by('codegen.genCode'):
+            if c.mib in mb and not c.ok:
+                V('C07.7-not-dropped', 'healthy module %s (all its dependencies healthy and available) failed in code generation: %s' % (c.mib, c.exc),
+                  what='healthy-module-failed', module=c.mib)
     return viol
 
 
